@@ -21,7 +21,7 @@ RULE = (
     "content mutations; sources are the same objects or equal-but-distinct ones; a is optionally "
     "detached before b is built (so ids coincide). Oracle: x == y <=> same class, equal reference "
     "content key and equal origin specs at every pre-order position; != is the negation; reflexive, "
-    "symmetric, transitive on the real results; foreign comparands (None, 0, str, sibling class, "
+    "symmetric, transitive on the real results; foreign comparands (None, 0, str, sibling class, objects whose own __eq__ says yes to everything, "
     "subclass) compare unequal both ways; hash constant. non-trivial = some pair differs in exactly "
     "one origin at depth >= 2, or is an equal pair of distinct objects; distinct = distinct specs."
 )
@@ -231,6 +231,32 @@ def check_triple(data: dict, lab: Labels) -> None:
     for f in foreign:
         require((a == f) is False and (f == a) is False, "eq-foreign", repr(type(f)))
         require((a != f) is True and (f != a) is True, "ne-foreign", repr(type(f)))
+    # non-nodes with an `__eq__` of their own that says yes to everything (unittest.mock.ANY, wildcard
+    # sentinels, "reference by id" handles): with the node as the left operand the verdict is the node's
+    import unittest.mock
+
+    class _Yes:
+        def __eq__(self, other: Any) -> bool:
+            return True
+
+        def __ne__(self, other: Any) -> bool:
+            return False
+
+        __hash__ = None  # type: ignore[assignment]
+
+    class _IdRef(str):
+        def __eq__(self, other: Any) -> bool:
+            return str.__eq__(self, getattr(other, "id", other))
+
+        def __ne__(self, other: Any) -> bool:
+            return not self.__eq__(other)
+
+        __hash__ = str.__hash__
+
+    for f in (unittest.mock.ANY, _Yes(), _IdRef(a.id)):
+        require((a == f) is False, "eq-foreign", f"permissive right operand {type(f).__name__}")
+        require((a != f) is True, "ne-foreign", f"permissive right operand {type(f).__name__}")
+        require([a].count(f) == 0 and (f in (a,)) is False, "eq-foreign", f"container search for {type(f).__name__}")
     # hash constancy: after comparisons, traversals, detach
     b.detach()
     list(c.dfs())
